@@ -8,6 +8,7 @@
     `.op (.call …)`, `.op (.define …)`
 -/
 import YtkProofs.Pipeline
+import YtkProofs.PipelineWF
 
 namespace Ytk.C14
 open Ytk.Pipeline
@@ -229,20 +230,89 @@ theorem lookupSegs_removeAtSegs : ∀ (segs : List String) (kvs : AMap Node),
     · rename_i hnc
       simp only [lookupSegs, child_of_noSuffix _ hx]
 
-/-- dotted arguments path, PARTIAL: the statement needs the callee's final data to be well formed
-    (unique keys at every level).  That `run` preserves deep well-formedness is not proved here (it needs
-    WF-preservation of dom merge / addValueAt at depth); the top-level part is `sorted_run`.
-    Full statement wanted: the same without `hwf`, from `Node.WF (.cont st.data)`. -/
-theorem call_args_gone_dotted_partial (n : Nat) (name : String) (ap : Option String) (args : Node) (spec : Action)
+/-! ### deep well-formedness is an invariant of the interpreter
+
+  `Node.WF (.cont d)`: every container of the document, at every depth, has strictly sorted — hence
+  unique — keys, i.e. it is a Go map.  The programs of the model carry document literals as `Node`s (the
+  `Data` of a SetOp, the `Args` of a CallOp; both are `map[string]interface{}` in the Go code), so the
+  invariant has a program side: `Task.LitWF t` / `Action.LitWF a` — every such literal, at any depth of
+  sub-actions, is itself `WF` (defined in YtkProofs/PipelineWF.lean; CloneWith preserves it).  For the Go
+  code this side holds by construction (a Go map cannot hold a key twice); in the model it has to be said,
+  and `run_wf_literal_counterexample` / `call_args_gone_dotted_literal_counterexample` show that the
+  statements are false for a model program with a duplicate-key literal.  No operation of the model is
+  excluded: set (merge / replace, path and root forms), template, log, abort, ext (trace / fail / inc),
+  forEach (all item sources), loop, call, define, at every nesting depth and for every fuel. -/
+
+/-- Deep well-formedness of the data is an invariant of `run`: for every fuel, every task whose literals
+    are well formed, every state whose registered callables have well-formed literals. -/
+theorem run_wf (n : Nat) (t : Task) (st : St) (ht : t.LitWF) (hdefs : ∀ p ∈ st.defs, p.2.LitWF)
+    (h : Node.WF (.cont st.data)) : Node.WF (.cont (run n t st).st.data) :=
+  (run_wf_inv n t st ht ⟨h, hdefs⟩).1
+
+/-- the program side of the invariant: the registry only ever holds callables with well-formed literals -/
+theorem run_defs_litWF (n : Nat) (t : Task) (st : St) (ht : t.LitWF) (hdefs : ∀ p ∈ st.defs, p.2.LitWF)
+    (h : Node.WF (.cont st.data)) : ∀ p ∈ (run n t st).st.defs, p.2.LitWF :=
+  (run_wf_inv n t st ht ⟨h, hdefs⟩).2
+
+/-- the same for a caller's sequence of top-level `Execute(op)` calls on one executor -/
+theorem runSeq_wf (n : Nat) : ∀ (os : List Op) (st : St), (∀ o ∈ os, o.LitWF) → (∀ p ∈ st.defs, p.2.LitWF) →
+    Node.WF (.cont st.data) → Node.WF (.cont (runSeq n os st).2.1.data)
+  | [], _, _, _, h => h
+  | o :: os, st, hos, hdefs, h => by
+    have hr := run_wf_inv n (.op o) st (hos o (List.mem_cons_self ..)) ⟨h, hdefs⟩
+    exact runSeq_wf n os _ (fun o' ho' => hos o' (List.mem_cons_of_mem _ ho')) hr.2 hr.1
+
+/-- the literal hypothesis cannot be dropped in the model: a SetOp whose `Data` literal is not a map
+    (keys `b`, `a` out of order below `k`) stores that literal as it is -/
+theorem run_wf_literal_counterexample :
+    let o : Op := .set (some (.cont [("k", .cont [("b", .leaf ⟨"int", "1"⟩), ("a", .leaf ⟨"int", "2"⟩)])])) ""
+      (some "replace")
+    Node.WF (.cont ([] : AMap Node)) ∧ ¬ Node.WF (.cont (run 5 (.op o) ⟨[], []⟩).st.data) := by
+  refine ⟨wf_nil, ?_⟩
+  have hd : (run 5 (.op (.set (some (.cont [("k", .cont [("b", .leaf ⟨"int", "1"⟩), ("a", .leaf ⟨"int", "2"⟩)])])) ""
+      (some "replace"))) ⟨[], []⟩).st.data = [("k", .cont [("b", .leaf ⟨"int", "1"⟩), ("a", .leaf ⟨"int", "2"⟩)])] := by
+    decide +kernel
+  intro h
+  rw [hd] at h
+  have h2 : Node.WF (.cont [("b", .leaf ⟨"int", "1"⟩), ("a", .leaf ⟨"int", "2"⟩)]) :=
+    h.of_cont_get (k := "k") rfl
+  have h3 : "b" < "a" := h2.sorted.head_lt ("a", _) (List.mem_cons_self ..)
+  exact absurd h3 (by decide)
+
+/-- dotted arguments path, full strength: after the call — normal or failing exit alike — nothing is left
+    at the arguments path, whatever the callable did in between (it may have replaced, merged into or
+    removed any part of the document, defined further callables, called others …).  From the well-formedness
+    of the data before the call only (plus the program side: `args` and the registered callables are
+    Go-map literals); the hypothesis about the callee's final data of the former `…_partial` version is
+    now the theorem `run_wf`. -/
+theorem call_args_gone_dotted (n : Nat) (name : String) (ap : Option String) (args : Node) (spec : Action)
     (st : St) (h : AMap.get? st.defs name = some spec)
     (hne : renderLenient (ap.getD "args") st.data ≠ "")
     (hseg : ∀ s ∈ splitPath (renderLenient (ap.getD "args") st.data), hasIdxSuffix s = false)
-    (hwf : Node.WF (.cont (run n (.act spec) (st.setData (addValueAt st.data (renderLenient (ap.getD "args") st.data)
-            (renderArgs st.data args)))).st.data)) :
+    (hwf : Node.WF (.cont st.data)) (hargs : args.WF) (hdefs : ∀ p ∈ st.defs, p.2.LitWF) :
     lookup (run (n + 1) (.op (.call name ap args)) st).st.data (renderLenient (ap.getD "args") st.data) = none := by
   rw [call_shape n name ap args spec st h]
   simp only [wrap, Res.mapSt, St.setData, lookup, hne, if_false, removeAt]
-  exact lookupSegs_removeAtSegs _ _ hwf hseg
+  refine lookupSegs_removeAtSegs _ _ ?_ hseg
+  exact run_wf n (.act spec) _ (hdefs (name, spec) (AMap.mem_of_get? h)) hdefs
+    (wf_addValueAt _ hwf (wf_renderArgs st.data hargs))
+
+/-- … and the data is still well formed afterwards -/
+theorem call_wf (n : Nat) (name : String) (ap : Option String) (args : Node) (st : St)
+    (hwf : Node.WF (.cont st.data)) (hargs : args.WF) (hdefs : ∀ p ∈ st.defs, p.2.LitWF) :
+    Node.WF (.cont (run n (.op (.call name ap args)) st).st.data) :=
+  run_wf n (.op (.call name ap args)) st hargs hdefs hwf
+
+/-- the program-side hypothesis is needed in the model: a callable whose SetOp literal holds the key `q`
+    twice leaves one of the two entries at the arguments path `p.q` behind -/
+theorem call_args_gone_dotted_literal_counterexample :
+    let body : Action := .mk "f" 0 none
+      [.set (some (.cont [("q", .leaf ⟨"int", "1"⟩), ("q", .leaf ⟨"int", "2"⟩)])) "p" (some "replace")] []
+    let st : St := ⟨[], [("f", body)]⟩
+    Node.WF (.cont st.data) ∧
+    lookup (run 30 (.op (.call "f" (some "p.q") (.cont []))) st).st.data "p.q" = some (.leaf ⟨"int", "2"⟩) := by
+  refine ⟨wf_nil, ?_⟩
+  decide +kernel
 
 /-! ### non-vacuity: concrete programs, evaluated by the kernel -/
 
